@@ -2731,8 +2731,17 @@ class Deb822FileElement(Deb822Element):
         # Note the special case where the file ends on a comment; here we insert a whitespace too
         # to be sure.  Otherwise we would have to check that there is an empty line before that
         # comment and that is too much effort.
-        if tail_element and not isinstance(tail_element, Deb822WhitespaceToken):
-            self._token_and_elements.append(self._set_parent(Deb822WhitespaceToken('\n')))
+        if tail_element:
+            if not tail_element.convert_to_text().endswith("\n"):
+                # The file does not end on a newline; supply it first or the separator
+                # below would merely terminate the last line.
+                if isinstance(tail_element, Deb822ParagraphElement):
+                    tail_element._ensure_final_newline()
+                else:
+                    self._token_and_elements.append(
+                        self._set_parent(Deb822WhitespaceToken('\n')))
+            if not isinstance(tail_element, Deb822WhitespaceToken):
+                self._token_and_elements.append(self._set_parent(Deb822WhitespaceToken('\n')))
         self._token_and_elements.append(self._set_parent(paragraph))
         paragraph.parent_element = self
 
